@@ -33,6 +33,17 @@ def install_fake_pools():
         def shutdown(self, *a, **k):  # noqa: ANN001
             pass
 
+        def submit(self, fn, *a, **k):  # noqa: ANN001
+            """the engine hands work to pools through loop.run_in_executor (virtualised by the loop); code that
+            submits directly and then blocks on the future holds the loop for the whole body: the body runs inline"""
+            import concurrent.futures
+            fut = concurrent.futures.Future()
+            try:
+                fut.set_result(fn(*a, **k))
+            except BaseException as ex:  # noqa: BLE001
+                fut.set_exception(ex)
+            return fut
+
     if not threads_pool_registry._pool_executor:
         threads_pool_registry._pool_executor = FakePool()
     if not process_pool_registry._pool_executor:
